@@ -1,3 +1,4 @@
+import MpsProps.Anchors.C16
 import MpsProofs.Sig
 import MpsProofs.SigBytes
 import MpsGen.Sig
